@@ -87,17 +87,20 @@ def run(tier, seed, replay=None):
             if cls in seen or len(ck.violations) >= 8:
                 continue
             seen.add(cls)
-            c2 = os.path.join(wd, 'confirm.txt'); t2 = os.path.join(wd, 'confirm.ndjson')
-            open(c2, 'w').write(' '.join(str(x) for x in case) + '\n'); sh([exe, c2, t2], timeout=300)
-            l2 = []
-            for ln in open(t2).read().split('\n'):
-                if ln.strip():
-                    j = json.loads(ln); j['check_perm'] = 0; l2.append(json.dumps(j))
-            open(t2, 'w').write('\n'.join(l2) + '\n')
-            v2 = validate_trace(wd, 'Trace_Merkle', 'Trace_Merkle.cfg', t2, env={'PCONST': pc}, nsplit=1)
-            if v2['rejected']:
-                ck.violation(key, 'recorded tree / root / extents contradict the tree definition', dict(cases=[list(case)]))
+            def wc(path, cs):
+                open(path, 'w').write('\n'.join(' '.join(str(x) for x in cc) for cc in cs) + '\n')
+
+            def post(tp):
+                l2 = []
+                for ln in open(tp).read().split('\n'):
+                    if ln.strip():
+                        j = json.loads(ln); j['check_perm'] = 0; l2.append(json.dumps(j))
+                open(tp, 'w').write('\n'.join(l2) + '\n')
+            how = vlib.confirm_case(wd, 'Trace_Merkle', 'Trace_Merkle.cfg', lambda cp, tp: [exe, cp, tp], wc, cases, rec['ci'], env={'PCONST': pc}, post=post)
+            if how:
+                ck.violation(key + (vlib.HIST if how == 'history' else ''), 'recorded tree / root / extents contradict the tree definition',
+                             dict(cases=[list(x) for x in (cases[:rec['ci']] if how == 'history' else [case])]))
             else:
-                ck.note('rejection not reproduced: ' + key)
+                ck.note('rejection not reproduced on re-run (neither alone nor after its process history): ' + key)
     ck.cov['shapes'] = len(cases); ck.cov['rejected_records'] = nrej
     return ck.finish()
